@@ -97,7 +97,10 @@ Example C19_example :
   length (paths (run_main ex_P 8 20 3)) = 24%nat /\
   Qred (rejmass (run_main ex_P 8 20 3)) = 1 # 12 /\
   Qred (mass (fun s => match rev (log s) with (_, a) :: _ => Z.eqb a 2 | [] => false end) (run_main ex_P 8 20 3)) = 11 # 15 /\
-  Qred (mass (Nat.eqb 1) (pick_pos [1; 2; 1 # 2])) = 4 # 7.
+  Qred (mass (Nat.eqb 1) (pick_pos [1; 2; 1 # 2])) = 4 # 7 /\
+  (* the same program as compose blocks with maxSteps = 5: one more step of code than as behaviours *)
+  length (paths (run_program FBehavior ex_P 5 20 3)) = 18%nat /\
+  length (paths (run_program FCompose ex_P 5 20 3)) = 24%nat.
 Proof. vm_compute. repeat split; reflexivity. Qed.
 
 (* non-vacuity of the executable-shuffle theorem and of the zero-weight lemmas: shuffle {B:1, C:2, A:1, B:0}
